@@ -167,6 +167,7 @@ class InstrDoc:
     selectors: set[int] | None
     line: int
     heading: str
+    function: str = ""
 
 
 def instruction_docs(repo: Path = REPO) -> list[InstrDoc]:
@@ -221,5 +222,6 @@ def instruction_docs(repo: Path = REPO) -> list[InstrDoc]:
                 nb = int(r[cb])
             except ValueError:
                 nb = None
-            out.append(InstrDoc(mn, r[cf].strip(), nb, ops, sels, ln, t.heading))
+            cfn = [i for i, h in enumerate(hdr) if h.startswith("Function")]
+            out.append(InstrDoc(mn, r[cf].strip(), nb, ops, sels, ln, t.heading, r[cfn[0]] if cfn and len(r) > cfn[0] else ""))
     return out
